@@ -123,6 +123,11 @@ func child(args []string) int {
 		case res = <-done:
 		case <-time.After(*timeout):
 			res = core.Result{Idx: sc.Idx, Kind: sc.Kind, Verdict: core.Inconclusive, Why: "watchdog: scenario exceeded " + timeout.String()}
+			if part, ok := core.CurrentResult(); ok && part.Verdict == core.Violated {
+				// violations established before the overrun stand
+				res = part
+				res.Why = "watchdog: scenario exceeded " + timeout.String() + " after these violations"
+			}
 			res.WallMs = time.Since(t0).Milliseconds()
 			b, _ := json.Marshal(res)
 			fmt.Fprintf(w, "END %d %s\n", pos, b)
